@@ -48,6 +48,28 @@ CHECKS.update({
     ),
 })
 
+CHECKS.update({
+    "C13": (
+        "Hypothesis-generated histories with NumPy-validated failing statements; snapshot oracle + differential against the fail-free program",
+        "Generated search over programs x failure positions x 15 failure kinds: MyGrad must raise wherever NumPy "
+        "raises, a before/after snapshot of every live tensor and caller array must be equal, and final values and "
+        "gradients must equal both the NumPy reference and (bit for bit) a MyGrad run without the failing statements. "
+        "Exploration only.",
+        "Failing statements are validated on a scratch copy of the NumPy mirrors (two rule-based kinds: constant=False "
+        "on integer result, bad dtype=); gradients are not part of the snapshot.",
+        "DESIGN.md §3 C13",
+    ),
+    "C14": (
+        "Hypothesis-generated programs x seed gradients; metamorphic L.backward(g) == (L*g).sum().backward(); rejection + shape/dtype invariant",
+        "Generated search over programs (float16/32/64), terminal ranks and 14 seed kinds (incl. F-ordered, tensor, "
+        "list, int seeds and three non-broadcastable kinds); metamorphic equality of all gradients between the seeded "
+        "backward and the explicit reduction, ValueError + no gradient written for non-broadcastable seeds, and the "
+        "ndarray/shape/dtype invariant on every stored gradient. Exploration only.",
+        "Seed values are dyadic so the cast of g is exact; nnet-layer outputs are covered by C02's per-op invariant.",
+        "DESIGN.md §3 C14",
+    ),
+})
+
 NOT_YET = {
 }
 
